@@ -775,6 +775,8 @@ func pathThroughFile(m *mfs, dir string) bool {
 	return !n.dir
 }
 
+var readAllChunk = 257
+
 // readAll reads a whole file of the real filesystem through a fresh handle.
 func readAll(fs FileSystem, p string) ([]byte, error) {
 	f, err := fs.Open(p)
@@ -783,7 +785,7 @@ func readAll(fs FileSystem, p string) ([]byte, error) {
 	}
 	defer f.Close()
 	var out []byte
-	buf := make([]byte, 257)
+	buf := make([]byte, readAllChunk)
 	for {
 		n, err := f.Read(buf)
 		out = append(out, buf[:n]...)
